@@ -19,7 +19,7 @@ Judge(rec) ==
         fs == Classify(b, a, rec.start)
     IN IF Acceptable(b, a, rec.start) # (Fails(b, a, rec.start) = {}) THEN "spec-inconsistent"
        ELSE IF fs # {} THEN VerdictOf(fs)
-       ELSE LET r == ImplRun(b, rec.start, FALSE, FALSE)                       \* the code as it is (all deviations repaired)
+       ELSE LET r == ImplRunX(b, rec.start, CodeDev)                           \* the code as it is (Renumber!CodeDev)
                 m == IF r.panic THEN [r EXCEPT !.max_id = 0] ELSE r             \* new_id.saturating_sub(1)
             IN
             IF m.objs = a.objs /\ m.trailer = a.trailer /\ m.bms = a.bms /\ m.max_id = a.max_id
